@@ -4,6 +4,7 @@
 //   (b) h1 ; Reset ; h2 ; observe  ==  fresh ; Reset ; h2 ; observe, for every h1, h2 of the alphabet.
 #pragma once
 #include <map>
+#include <set>
 #include "../../spec/mmio_fields.h"
 #include "sys.h"
 
@@ -157,11 +158,11 @@ inline std::vector<Op> Alphabet() {
     return ops;
 }
 
-enum { O_REGS, O_CORE, O_MIU, O_ICU, O_APBP, O_TIMER, O_BTDMP, O_DMA, O_AHBM, O_MEM, O_API, O_LOG, O_COUNT };
-static const char* kObsName[] = {"registers", "interrupt-latches", "miu", "icu", "apbp", "timers", "audio-port", "dma", "ahbm", "memory", "host-api", "callback-log"};
+enum { O_REGS, O_CORE, O_MIU, O_ICU, O_APBP, O_TIMER, O_BTDMP, O_DMA, O_AHBM, O_MEM, O_API, O_LOG, O_MMIO, O_COUNT };
+static const char* kObsName[] = {"registers", "interrupt-latches", "miu", "icu", "apbp", "timers", "audio-port", "dma", "ahbm", "memory", "host-api", "callback-log", "mmio-register-words"};
 using Obs = std::array<u64, O_COUNT>;
 
-inline Obs Observe(Inst& in) {
+inline Obs Observe(Inst& in, bool with_mmio_words = false) {
     Machine& m = *in.m;
     Obs o{};
     Bytes b;
@@ -261,6 +262,29 @@ inline Obs Observe(Inst& in) {
     for (auto& s : m.log)
         lh = Fnv(s.data(), s.size(), lh) * 31 + 3;
     o[O_LOG] = lh ^ m.log.size();
+    if (with_mmio_words) {
+        // every register word as the host reads it, unimplemented bits included (data ports whose read consumes something are left out; this is
+        // the last thing done to the instance).  Only compared between instances with the same history: Reset does not claim to clear the
+        // backing words of unimplemented bits (DESIGN section 7).
+        static const std::vector<spec::Field> fields = spec::MmioFields();
+        std::set<u16> ports;
+        for (auto& f : fields)
+            if (f.cls == spec::FIFO)
+                ports.insert(f.off);
+        Bytes bw;
+        for (u16 off = 0; off < 0x800; off += 2) {
+            if (ports.count(off))
+                continue;
+            try {
+                bw.Put(t.MMIORead(off));
+            } catch (const T::VerifAssertion&) {
+                bw.Put((u16)0xDEAD);
+            } catch (const T::UnimplementedException&) {
+                bw.Put((u16)0xDEAE);
+            }
+        }
+        o[O_MMIO] = bw.Hash();
+    }
     return o;
 }
 
@@ -320,6 +344,7 @@ inline void CheckFresh(const std::vector<Op>& ops, const std::vector<int>& h, bo
                 Inst junk;
                 junk.m->teakra->Reset();
                 junk.m->teakra->MMIOWrite(0x206, 0xFFFF), junk.m->teakra->MMIOWrite(0x214, 0x7777);
+                junk.m->teakra->MMIOWrite(0x11A, 0xFFFF), junk.m->teakra->MMIOWrite(0x120, 0xFFFF), junk.m->teakra->MMIOWrite(0x2A0, 0xFFFF); // unimplemented bits too
                 junk.m->teakra->Run(5);
             }
             Inst in;
@@ -327,7 +352,7 @@ inline void CheckFresh(const std::vector<Op>& ops, const std::vector<int>& h, bo
                 in.m->teakra->Reset();
             ok[v] = Apply(in, ops, h);
             if (ok[v])
-                o[v] = Observe(in);
+                o[v] = Observe(in, true);
         }
         verif_heap::g_fill = -1;
     }
